@@ -256,6 +256,9 @@ def run_shard(shard, env):
     from term_image.image import ITerm2Image, KittyImage
 
     # let the library find out where it is (real queries)
+    import term_image
+
+    term_image.set_query_timeout(5.0)
     KittyImage.is_supported(), ITerm2Image.is_supported()
     rnd = random.Random("%s/c20/%s" % (shard["seed"], shard["index"]))
     try:
